@@ -4,6 +4,7 @@ import Walrus.Rename
 import Walrus.Driver.ModuleD
 import Walrus.CodeMaps
 import Walrus.Agree
+import Walrus.BodiesOK
 
 /-! `exec <seed> <rounds> <gas> <module text>` → the observation of the scripted run;
     `execeq <seed> <rounds> <gas> <module A> || <module B>` → `same` or where the observations part -/
@@ -227,7 +228,12 @@ def handleRenTie (ws : List String) : String :=
                   let m := mapsOf c pfs (keepAll c pfs.length) ofn.localMap
                   let tie := (emitBodyMarks m (PSeqs.toArena pf.seqs) 0).map (·.1) == some ofn.ops
                   let plainOffsets := fa.body.flat.all fun o => wrap o == o
-                  tie && (!plainOffsets || agreeL e m ρ fa.body)
+                  -- the hypothesis of `C01.written_body_is_ren_elide_by_the_emission_maps` for this
+                  -- function: its operators have the decoder's operand shapes
+                  let shaped := match mA.code[u - nif]? with
+                    | some (_, ops) => flatShapedB ops
+                    | none => false
+                  tie && (!plainOffsets || (agreeL e m ρ fa.body && shaped))
                 | _, _ => fa.imp.isSome
               if okSig && okBody && okLoc && okAgree then none
               else some s!"function {u}: sig={okSig} body={okBody} locals={okLoc} agree={okAgree}"
